@@ -1511,6 +1511,25 @@ func emit(id string, c *caseT, st *hx.Stats) string {
 			}
 			ol.Strs(o.Cons)
 			ol.Strs(o.Prod)
+			// the WithResponse calls in order, as the option function sees them (the example maps are folded by
+			// the model): status, value == nil, value not the zero value, names of the named examples
+			ol.Nat(len(o.Resps))
+			for ri, r := range o.Resps {
+				ol.Nat(r.Status)
+				var val any
+				if r.T.K == "data" {
+					val = dataPayload(r.T.I)
+				} else {
+					val = zeroOf(r.T.build())
+				}
+				ol.Bool(val == nil)
+				ol.Bool(r.T.K == "data")
+				var names []string
+				for _, x := range o.Ex[ri] {
+					names = append(names, x.Name)
+				}
+				ol.Strs(names)
+			}
 		}
 	}()
 	if typeErr {
